@@ -348,9 +348,13 @@ def concurrent_case(ctx, sc, scenario, start, switches, seed, runner = None):
 		# the transceiver's queue lock, whatever it is called: the one lock object it owns
 		import _thread
 		names = [k for k, v in vars(trx).items() if isinstance(v, (_thread.LockType, _thread.RLock, sched.BatonLock))]
-		if len(names) != 1:
-			raise common.HarnessError("cannot identify the transceiver's queue lock (%d lock attributes)" % len(names))
-		setattr(trx, names[0], sched.BatonLock(sc))
+		if not names:
+			raise common.HarnessError("the transceiver owns no lock object at all: cannot put the baton-aware lock in place")
+		# every lock the transceiver owns (the queue lock; since c1f9424 also the loss-simulation lock)
+		for nd in b.nodes:
+			for nm, v in list(vars(nd.trx).items()):
+				if isinstance(v, (_thread.LockType, _thread.RLock)):
+					setattr(nd.trx, nm, sched.BatonLock(sc))
 	model = Model()
 	T = 1000
 	# pre-queued bursts: one stale, one for T, one for T+1, one for T+2
